@@ -25,7 +25,7 @@ CHECKS = {
     'C03': dict(
         engine='opsim', level='exploration', design_ref='DESIGN.md 3',
         technique='deterministic simulation with fault injection: seeded call/scribble/mutate/failed-call/injected-MemoryError/parallel-call histories on one long-lived compiled function, System or Basis, checked against pristine snapshots of an independent compile',
-        text='Seeded search over call histories of one long-lived compiled function (and of solver.System and function.Basis objects): calls with re-used, mutated-in-place, fresh, read-only, non-contiguous and integer-typed argument sets, poison written over every writable array handed out earlier, malformed calls that must raise, MemoryError injected at the n-th line of the running generated script (also in the middle of the first run), the same call executed in parallel under the process simulator (optionally itself hit by an injected kill / fork failure / allocation failure, also as the first run); values owned by library objects (transform items) handed out through views; histories inside the library's own long-lived compiled functions (Topology.locate: points located together vs each alone; trim: whole topology vs per element). Every call is compared with the snapshot taken in pristine state from a separate compile without constant caching (cross-checked against the unsimplified, unoptimised evaluation), and argument arrays are compared byte for byte before and after. Sampled: evidence, not proof.',
+        text='Seeded search over call histories of one long-lived compiled function (and of solver.System and function.Basis objects): calls with re-used, mutated-in-place, fresh, read-only, non-contiguous and integer-typed argument sets, poison written over every writable array handed out earlier, malformed calls that must raise, MemoryError injected at the n-th line of the running generated script (also in the middle of the first run), the same call executed in parallel under the process simulator (optionally itself hit by an injected kill / fork failure / allocation failure, also as the first run); values owned by library objects (transform items) handed out through views; histories inside long-lived compiled functions (Topology.locate: points located together vs each alone; trim: whole topology vs per element). Every call is compared with the snapshot taken in pristine state from a separate compile without constant caching (cross-checked against the unsimplified, unoptimised evaluation), and argument arrays are compared byte for byte before and after. Sampled: evidence, not proof.',
         note='Trusts NumPy; arrays that alias an argument array are not scribbled; exported matrix storage (Matrix.export) is not treated as a result of the compiled function; programs come from fixed template families, not an open-ended expression fuzzer.'),
     'C14': dict(
         engine='opsim', level='exploration', design_ref='DESIGN.md 4',
